@@ -20,8 +20,12 @@ THEOREMS = [
     'Pyiga.Props.C15.nonzero_2d_refines', 'Pyiga.Props.C15.nonzero_3d_refines',
     'Pyiga.Props.C15.nonzero_spec_product', 'Pyiga.Props.C15.lower_tri_subset',
     'Pyiga.Props.C15.nonzero_support_kron', 'Pyiga.Props.C15.nonzero_dispatch',
+    'Pyiga.Props.C15.transpose_nonzero', 'Pyiga.Props.C15.reindex_inverse',
+    'Pyiga.Props.C15.reindex_from_reordered_two_level', 'Pyiga.Props.C15.raveled_cartesian_product_refines',
+    'Pyiga.Props.C15.row_spec', 'Pyiga.Props.C15.rows_spec',
 ]
-MODULES = ['Pyiga.Model.Index', 'Pyiga.Model.MLMatrix', 'Pyiga.Proofs.Index', 'Pyiga.Proofs.MLMatrix', 'Pyiga.Props.C15']
+MODULES = ['Pyiga.Model.Index', 'Pyiga.Model.MLMatrix', 'Pyiga.Proofs.Index', 'Pyiga.Proofs.MLMatrix',
+           'Pyiga.Proofs.MLMatrix2', 'Pyiga.Proofs.MLRows', 'Pyiga.Props.C15']
 
 
 def fmt_pairs(I, J):
